@@ -302,6 +302,12 @@ func (ap *AP) S(size int, slices ...Slice) (newAP AP, ndStart, ndEnd int, err er
 			// by the length of the window elsewhere.
 			ndEnd = ndStart + 1
 		}
+		if newShape.TotalSize() != ndEnd-ndStart {
+			// the view does not address every element of its window (e.g. an inner axis of a transposed
+			// tensor was cut, which the test on the outer dimension above cannot see): kernels that run
+			// over the window in storage order must not be used on it
+			order = MakeDataOrder(order, NonContiguous)
+		}
 
 		newAP = MakeAP(newShape, newStrides, order, ap.Δ)
 	}
